@@ -16,9 +16,28 @@ import (
 
 // ---- stub descriptors ----
 
-type vOneofs struct{ protoreflect.OneofDescriptors }
+type vOneofs struct {
+	protoreflect.OneofDescriptors
+	list []*vOD
+}
 
-func (vOneofs) Len() int { return 0 }
+func (x vOneofs) Len() int                               { return len(x.list) }
+func (x vOneofs) Get(i int) protoreflect.OneofDescriptor { return x.list[i] }
+
+// vOD is a (non-synthetic) oneof of a stub message descriptor.
+type vOD struct {
+	protoreflect.OneofDescriptor
+	parent *vMD
+	name   protoreflect.Name
+	index  int
+	fields *vFields
+}
+
+func (o *vOD) Name() protoreflect.Name               { return o.name }
+func (o *vOD) FullName() protoreflect.FullName       { return o.parent.name.Append(o.name) }
+func (o *vOD) Index() int                            { return o.index }
+func (o *vOD) IsSynthetic() bool                     { return false }
+func (o *vOD) Fields() protoreflect.FieldDescriptors { return o.fields }
 
 type vNums struct {
 	protoreflect.FieldNumbers
@@ -52,13 +71,14 @@ type vMD struct {
 	name   protoreflect.FullName
 	syntax protoreflect.Syntax
 	fields *vFields
+	oneofs []*vOD
 }
 
 func (m *vMD) FullName() protoreflect.FullName           { return m.name }
 func (m *vMD) Name() protoreflect.Name                   { return m.name.Name() }
 func (m *vMD) Syntax() protoreflect.Syntax               { return m.syntax }
 func (m *vMD) Fields() protoreflect.FieldDescriptors     { return m.fields }
-func (m *vMD) Oneofs() protoreflect.OneofDescriptors     { return vOneofs{} }
+func (m *vMD) Oneofs() protoreflect.OneofDescriptors     { return vOneofs{list: m.oneofs} }
 func (m *vMD) ExtensionRanges() protoreflect.FieldRanges { return vRanges{} }
 func (m *vMD) IsMapEntry() bool                          { return false }
 func (m *vMD) IsPlaceholder() bool                       { return false }
@@ -83,6 +103,7 @@ type vFD struct {
 	presence bool
 	lazy     bool
 	msg      *vMD
+	oneof    *vOD
 }
 
 func (f *vFD) Number() protoreflect.FieldNumber                   { return f.num }
@@ -95,7 +116,12 @@ func (f *vFD) IsMap() bool                                        { return false
 func (f *vFD) IsExtension() bool                                  { return false }
 func (f *vFD) IsWeak() bool                                       { return false }
 func (f *vFD) IsLazy() bool                                       { return f.lazy }
-func (f *vFD) ContainingOneof() protoreflect.OneofDescriptor      { return nil }
+func (f *vFD) ContainingOneof() protoreflect.OneofDescriptor {
+	if f.oneof == nil {
+		return nil
+	}
+	return f.oneof
+}
 func (f *vFD) ContainingMessage() protoreflect.MessageDescriptor { return f.parent }
 func (f *vFD) Syntax() protoreflect.Syntax                        { return f.parent.syntax }
 func (f *vFD) Name() protoreflect.Name                            { return f.name }
@@ -481,6 +507,12 @@ func vMI_Empty() *MessageInfo {
 
 // vType selects a corpus type: its tables and a fresh zero message.
 func vType(k int) (*MessageInfo, pointer) {
+	if k == 30 {
+		return vMI_One(), pointer{p: unsafe.Pointer(new(VOne))}
+	}
+	if k == 31 {
+		return vMI_One3(), pointer{p: unsafe.Pointer(new(VOne3))}
+	}
 	if k >= 20 {
 		switch k {
 		case 20:
